@@ -849,7 +849,10 @@ class LayoutTyper(Structured):
                 st[t.args[0].id] = SCALAR
         if isinstance(t, ast.Compare) and len(t.ops) == 1 and isinstance(t.ops[0], (ast.Eq, ast.NotEq)):
             # `if A.domain == B.domain:` (Domain.__eq__ is order-sensitive): unify the two terms on the equal branch
-            da, db = self.dom_term(t.left, st), self.dom_term(t.comparators[0], st)
+            l_, r_ = t.left, t.comparators[0]
+            if isinstance(l_, ast.Attribute) and isinstance(r_, ast.Attribute) and l_.attr == 'attrs' and r_.attr == 'attrs':
+                l_, r_ = l_.value, r_.value          # equal attribute TUPLES: same attributes in the same order, i.e. the same layout
+            da, db = self.dom_term(l_, st), self.dom_term(r_, st)
             if da is not None and db is not None and da != db and truth == isinstance(t.ops[0], ast.Eq):
                 def occurs(x, y):
                     return x == y or (isinstance(y, tuple) and any(occurs(x, z) for z in y))
